@@ -72,6 +72,7 @@ CaseResult run_static(const RunCtx &ctx, TapeReader &t, unsigned size_hint) {
     o.xthreads = ctx.x("xthreads");
     o.xprocs = ctx.x("xprocs");
     std::vector<K> keys = gen_keys<K>(t, o, meta);
+    const bool nested = t.chance(1, 10); // construct from inside a caller's OpenMP parallel region
     const size_t n = keys.size();
     const bool c01 = ctx.prop == "C01", c02 = ctx.prop == "C02", c07 = ctx.prop == "C07";
     const bool mem = ctx.mode == "mem";
@@ -98,7 +99,8 @@ CaseResult run_static(const RunCtx &ctx, TapeReader &t, unsigned size_hint) {
     if (c07) pgm::verif::SegLog<K>::sink = &sessions;
     StaticProbe<K, Eps, ER, F> idx;
     try {
-        idx = StaticProbe<K, Eps, ER, F>(keys.begin(), keys.end());
+        run_maybe_nested(nested, [&] { idx = StaticProbe<K, Eps, ER, F>(keys.begin(), keys.end()); });
+        if (nested) res.label("built_inside_parallel_region");
     } catch (const std::exception &e) {
         pgm::verif::SegLog<K>::sink = nullptr;
         res.fail(std::string("construction threw on in-domain input: ") + e.what());
